@@ -88,7 +88,7 @@ FailsRound(t, k) ==
      \cup Tag("sandbox", BadSandbox(acts \cup snap \cup built))
      \cup Tag("limits", BadLimits(acts \cup built, now) \cup BadLimits(snap, sofar))
      \cup (IF Rounds(t)[k].st.netpol
-           THEN Tag("ingress", BadIngress(snap, allsv) \cup BadIngress(built, Rounds(t)[k].svcs))
+           THEN Tag("ingress", BadIngressX(snap, Rounds(t)[k].svcs, allsv, {}) \cup BadIngress(built, Rounds(t)[k].svcs))
                 \cup Tag("egress", BadEgress(snap) \cup BadEgress(built))
            ELSE {})
 \* the Deploy of another lease (t.other[k], abstract input t.input.other[k]) into the same cluster
@@ -102,11 +102,11 @@ FailsOther(t, k) ==
      \cup Tag("limits", BadLimits(acts \cup built \cup mine2, {r.svcs}))
      \cup (IF mine1 # Mine(LastSnap(t), t.ns) THEN {<<"interference", "neighbour-deploy">>} ELSE {})
      \cup (IF LastMainRound(t).st.netpol
-           THEN Tag("ingress", BadIngressX(mine1, AllMainSvcs(t), NeighbourPods(snap, t.ns)))
+           THEN Tag("ingress", BadIngressX(mine1, LastMainRound(t).svcs, AllMainSvcs(t), NeighbourPods(snap, t.ns)))
                 \cup Tag("egress", BadEgressX(mine1, NeighbourPods(snap, t.ns)))
            ELSE {})
      \cup (IF r.st.netpol
-           THEN Tag("ingress", BadIngressX(mine2, r.svcs, NeighbourPods(snap, o.ns)) \cup BadIngress(built, r.svcs))
+           THEN Tag("ingress", BadIngressX(mine2, r.svcs, r.svcs, NeighbourPods(snap, o.ns)) \cup BadIngress(built, r.svcs))
                 \cup Tag("egress", BadEgressX(mine2, NeighbourPods(snap, o.ns)) \cup BadEgress(built))
            ELSE {})
 FailsTeardown(t) == Tag("calls", BadCalls({NAct(a) : a \in SetOf(t.teardown.acts)}, t.ns))
@@ -128,7 +128,7 @@ FailsWindow(t, k) ==
       at == {j \in DOMAIN acts : acts[j].verb \in {"create", "update"} /\ acts[j].kind = "deployment"} IN
   IF ~Rounds(t)[k].st.netpol THEN {}
   ELSE UNION {LET cl == Mine(After(Start(t, k), acts, i), t.ns) IN
-              Tag("ingress-window", BadIngress(cl, allsv)) \cup Tag("egress-window", BadEgress(cl)) : i \in at}
+              Tag("ingress-window", BadIngressX(cl, Rounds(t)[k].svcs, allsv, {})) \cup Tag("egress-window", BadEgress(cl)) : i \in at}
 
 Fails(t) == UNION {FailsRound(t, k) \cup FailsWindow(t, k) : k \in DOMAIN t.rounds} \cup UNION {FailsOther(t, k) : k \in DOMAIN t.other} \cup FailsTeardown(t)
 
